@@ -21,6 +21,10 @@ class Graph:
         self.nodes = []
         for bid, b in self.blocks.items():
             el = b.get('elems') or []
+            # the extractor dumps implicit wrappers (casts, temporaries, cleanups) under the id of the expression they wrap: one evaluation, one node
+            if any(i > 0 and el[i] == el[i - 1] for i in range(len(el))):
+                el = [e for i, e in enumerate(el) if i == 0 or e != el[i - 1]]
+                b['elems'] = el
             chain = [(bid, i) for i in range(len(el))] + [(bid, None)]
             for a, c in zip(chain, chain[1:]):
                 self.succ.setdefault(a, []).append(c)
